@@ -370,6 +370,11 @@ theorem sc_ids_are_own_addresses : scIds.all (fun x => x.2.2.2 == "true") = true
 theorem txn_identity_untouched :
     txnMakes = [] ∧ txnWrites.all (fun x => x.2.2 != "ClientID" && x.2.2 != "ToClientID") = true := by decide
 
+/-- a transfer object is never modified after it was built (no assignment to a field of a `state.Transfer` /
+`state.SignedTransfer` outside its own package and tooling), so the class of the expression it was BUILT from is
+the class of what is queued. -/
+theorem transfers_not_rewritten : transferWrites = [] := by decide
+
 /-- what a source class says about the wallet a site debits, in one contract call. `other`, `foreignContract`
 and `mint` constrain nothing; `tool` / `unreachable` sites never run. -/
 def Src.denotes (A : Authority) (t : Txn) : Src → Id → Prop
